@@ -3,6 +3,7 @@ package ds
 
 import (
 	"sync"
+	"sync/atomic"
 
 	"verifrt"
 
@@ -439,14 +440,19 @@ func H_C11_conc() {
 	mutAdd := NewSetMutations[uint8](4, 5)
 	var wg sync.WaitGroup
 	var sawMid bool
+	var added, deleted atomic.Int32
 	run := func(which int) {
 		defer wg.Done()
 		verifrt.MustFinish()
 		switch which {
 		case 0:
-			s.Add(3)
+			if s.Add(3) {
+				added.Add(1)
+			}
 		case 1:
-			s.Delete(1)
+			if s.Delete(1) {
+				deleted.Add(1)
+			}
 		case 2:
 			s.AddAll(other)
 		case 3:
@@ -483,6 +489,13 @@ func H_C11_conc() {
 	// Replace is atomic with respect to Replace: the result is one of the two arguments, never a mixture
 	if (a == 6 && b == 8) || (a == 8 && b == 6) {
 		verifrt.Assert(s.Equals(other) || s.Equals(other2), "two concurrent Replace calls left a mixture of both arguments")
+	}
+	// Add / Delete report the prior presence: of two concurrent Add(3) (Delete(1)) exactly one sees the change
+	if a == 0 && b == 0 {
+		verifrt.Assert(added.Load() == 1 && s.Has(3), "two concurrent Add calls of one absent element did not report 'added' exactly once")
+	}
+	if a == 1 && b == 1 {
+		verifrt.Assert(deleted.Load() == 1 && !s.Has(1), "two concurrent Delete calls of one present element did not report 'deleted' exactly once")
 	}
 	// single-element linearizability: Add(3) || Delete(1) from {1,2}
 	if (a == 0 && b == 1) || (a == 1 && b == 0) {
